@@ -402,7 +402,7 @@ func modeSignature(ti *terminfo.Terminfo) string {
 func main() {
 	w = hc.Start("C04")
 	w.R.Rule = "explicit-state search to closure (frontier empty; depth cap 7 quick / 9 thorough) over EnableMouse (5 flag sets)/DisableMouse, Enable/DisablePaste, Enable/DisableFocus, SetCursorStyle (2 shapes x none/red/reset), SetTitle, Show/HideCursor, draw+Show, Suspend, Resume, Fini on the real screen; states merged on equal private screen state + reference terminal registers + application-state model; at every Suspend and Fini the terminal's registers must be back to the pre-engage state (main screen, cursor visible/default shape/default colour, SGR default, G0 ASCII, keypad and all DEC private modes off, auto-margin on, title stack balanced and saved title restored) and the Tty call log must satisfy the contract (Drain and callback unregistration before Stop, no Read after Stop, Close exactly once and only at Fini); at every Resume exactly the modes the application enabled are on again. Configurations: one entry per mode-signature class of the 45 ECMA-48-family entries (thorough: every entry) x TCELL_ALTSCREEN unset/disable. distinct_nontrivial = distinct reachable states"
-	w.R.Assumptions = []string{"terminal registers are those of the reference emulator (ref/vt)", "which features an entry has follows tcell's documented rule (mouse capability or xterm name => xterm extensions)", "Suspend/Fini are given 30 s before a hang is reported"}
+	w.R.Assumptions = []string{"terminal registers are those of the reference emulator (ref/vt)", "which features an entry has follows tcell's documented rule (mouse capability or xterm name => xterm extensions)", "a Suspend/Fini call is reported as hung only after 120 s with the whole process idle for 60 s"}
 	entries := common.Entries()
 	o := ops()
 	type cfg struct {
@@ -469,6 +469,11 @@ func main() {
 		d := depth
 		if c.e.Name != "xterm-256color" && !hc.Thorough() {
 			d = 3
+			// xterm's own smcup/rmcup also push and pop the title, which hides an unbalanced
+			// save/restore by the screen; the xterm-like entries whose smcup does not are searched one level deeper
+			if ti := c.e.Ti; ti.XTermLike && ti.SetWindowTitle == "" && !strings.Contains(ti.EnterCA, "[22;") {
+				d = 4 // SetTitle; Suspend; Resume; Fini
+			}
 		}
 		tag := fmt.Sprintf("%s/altscreen=%v", c.e.Name, c.alt)
 		ecfg := &seq.Config{Name: tag, NOps: len(o), Depth: d, OpName: func(i int) string { return o[i].String() },
